@@ -217,12 +217,12 @@ fn index_count_alloc<const N: usize>(fill: u8, last: u8) {
     kani::cover!(true, "end reached");
 }
 
-//@ {"name":"c06e_index_count_alloc","props":["C06"],"obligation":"C06-E","timeout":900,"mem_gb":9,"functions":["xz::reader::Index::parse","xz::parse_multibyte_integer_from_reader","alloc::vec::Vec::with_capacity"],"bounds":"record count 2^63-1 (9-byte field, concrete) followed by end of input; unwind 11","assumes":["concrete scenario: no symbolic input (see comment)"]}
+//@ {"name":"c06e_index_count_alloc","props":["C06"],"no_inputs":true,"obligation":"C06-E","timeout":900,"mem_gb":9,"functions":["xz::reader::Index::parse","xz::parse_multibyte_integer_from_reader","alloc::vec::Vec::with_capacity"],"bounds":"record count 2^63-1 (9-byte field, concrete) followed by end of input; unwind 11","assumes":["concrete scenario: no symbolic input (see comment)"]}
 #[kani::proof]
 #[kani::unwind(11)]
 fn c06e_index_count_alloc() { index_count_alloc::<9>(0x7F, 0x7F); }
 
-//@ {"name":"c06e_index_count_alloc_2p24","props":["C06"],"obligation":"C06-E","timeout":900,"mem_gb":9,"functions":["xz::reader::Index::parse","alloc::vec::Vec::with_capacity"],"bounds":"record count 2^24 (4-byte field, concrete: a 256 MiB pre-allocation if the count were trusted) followed by end of input; unwind 11","assumes":["concrete scenario"]}
+//@ {"name":"c06e_index_count_alloc_2p24","props":["C06"],"no_inputs":true,"obligation":"C06-E","timeout":900,"mem_gb":9,"functions":["xz::reader::Index::parse","alloc::vec::Vec::with_capacity"],"bounds":"record count 2^24 (4-byte field, concrete: a 256 MiB pre-allocation if the count were trusted) followed by end of input; unwind 11","assumes":["concrete scenario"]}
 #[kani::proof]
 #[kani::unwind(11)]
 fn c06e_index_count_alloc_2p24() {
@@ -496,7 +496,7 @@ fn c12a_garbage_after_stream() {
 
 // C07-E: a zero-length read in the middle of a block returns Ok(0) and does not disturb the stream (it must not be
 // mistaken for the end of the block).
-//@ {"name":"c07e_xz_zero_len_read_mid_block","props":["C07"],"obligation":"C07-E","timeout":900,"functions":["xz::reader::XZReader::read"],"bounds":"reader in the state 'inside a block' (stream header parsed, CRC32 calculator active), inner chain = a source with 4 unread (concrete) bytes; destination length 0, then 4","assumes":["block chain replaced by a plain byte source (the filter chain is not the subject)"],"stubs":["block chain = Src"]}
+//@ {"name":"c07e_xz_zero_len_read_mid_block","props":["C07"],"no_inputs":true,"obligation":"C07-E","timeout":900,"functions":["xz::reader::XZReader::read"],"bounds":"reader in the state 'inside a block' (stream header parsed, CRC32 calculator active), inner chain = a source with 4 unread (concrete) bytes; destination length 0, then 4","assumes":["block chain replaced by a plain byte source (the filter chain is not the subject)"],"stubs":["block chain = Src"]}
 #[kani::proof]
 #[kani::unwind(10)]
 fn c07e_xz_zero_len_read_mid_block() {
